@@ -102,7 +102,9 @@ def check_string(s, embed, fails, counters):
                 # every chunk with ast.parse; a text it lets through must stand that test as a whole as well)
                 for e in exs:
                     try:
-                        srcs = ['\n'.join(p.exec_lines) for p in e._parts]
+                        # the example as a whole (the library validates chunk by chunk before it cuts a chunk into parts at
+                        # directive lines; a single part need not be a complete statement list)
+                        srcs = ['\n'.join(l for p in e._parts for l in p.exec_lines)]
                     except Exception:
                         srcs = []
                     for src_ in srcs:
@@ -115,7 +117,7 @@ def check_string(s, embed, fails, counters):
                             ast.parse(src_)
                         except SyntaxError as syn:
                             fails.append((key, [{'sig': 'examples:accepted-although-not-python',
-                                                 'msg': 'the example collected from %r holds the part %r: %r' % (s, src_, syn)}], {'string': s}))
+                                                 'msg': 'the example collected from %r has the source %r: %r' % (s, src_, syn)}], {'string': s}))
                             break
                         except (ValueError, RecursionError, MemoryError):
                             pass
